@@ -313,7 +313,7 @@ def case_corrmax(ctx, n):
 
 def cases(tier):
     cs = [Case("shift_1d_n2", "case_shift_1d", {"n": 2}), Case("shift_1d_n4", "case_shift_1d", {"n": 4}, timeout_s=2400)]
-    for (r, c, ax) in ((2, 4, 1), (4, 2, 0), (2, 4, -1), (2, 2, 0)) if tier == "quick" else ((2, 4, 1), (4, 2, 0), (2, 4, -1), (2, 2, 0), (2, 2, 1), (3, 4, 1), (4, 3, 0), (4, 4, 0), (4, 4, 1), (1, 4, 1), (4, 1, 0)):
+    for (r, c, ax) in ((2, 4, 1), (4, 2, 0), (2, 4, -1), (2, 2, 0), (4, 2, -2), (4, 3, -2)) if tier == "quick" else ((2, 4, 1), (4, 2, 0), (2, 4, -1), (2, 2, 0), (4, 2, -2), (4, 3, -2), (2, 2, 1), (3, 4, 1), (4, 3, 0), (4, 4, 0), (4, 4, 1), (1, 4, 1), (4, 1, 0)):
         cs.append(Case(f"shift_2d_{r}x{c}_axis{ax}", "case_shift_2d", {"rows": r, "cols": c, "axis": ax}, timeout_s=2400))
     for n in (2, 4):
         cs.append(Case(f"shift_nan_input_n{n}", "case_shift_nan_input", {"n": n}))
